@@ -163,14 +163,16 @@ ui999topstr(char *restrict b, size_t z, uint32_t d, size_t width, char pad)
 /* specifically for numbers 000-999, signature like ui32topstr() */
 	if (z) {
 		uint32_t d100 = d / 100U, drem = d % 100U;
+		/* behind a printed digit a zero is a digit, not padding */
+		const uint32_t hun = d100;
 		size_t i;
 
 		i = 0U;
 		b[i] = ui2c(d100, pad);
 		i += (d100 > 0U || width > 2U && pad) && z > 2U;
 		d100 = drem / 10U, drem = drem % 10U;
-		b[i] = ui2c(d100, pad);
-		i += (d100 > 0U || width > 1U && pad) && z > 1U;
+		b[i] = ui2c(d100, hun ? '0' : pad);
+		i += (hun > 0U || d100 > 0U || width > 1U && pad) && z > 1U;
 		b[i++] = ui2c(drem, '0');
 		return i;
 	}
